@@ -1,14 +1,26 @@
-(* C19 driver: a single command "TABLES" prints the tables the check needs:
-   SCRIPT <path> <name> <aliases> <scope> <min_args> <confined T/F>   one line per script command
-   PURE <list>     FLOW <list>   then END *)
+(* C19 driver.
+   TABLES  prints the tables the check needs:
+     SCRIPT <path> <name> <aliases> <scope> <min_args> <confined T/F> <confined_s T/F>   one line per script command
+            (confined = the original syntactic check, confined_s = the strengthened one the soundness theorem uses)
+     PURE <list>   FLOW <list>   COND <list>   TABLEOK <T/F>   then END
+   WITNESS runs the extracted model (ScriptBodyToy.wit_run: array_concat's own script, loop variable "=", caller
+           variable is_array, over commands satisfying every frame hypothesis) and prints
+     WITNESS <flag T/F> <is_array still defined T/F>     or   WITNESS none *)
 let () = iter_lines (fun line ->
   match fields line with
   | ["TABLES"] ->
       List.iter (fun s ->
-        Printf.printf "SCRIPT\t%s\t%s\t%s\t%s\t%d\t%s\n" (field_of_str s.sc_path) (field_of_str s.sc_name)
-          (field_of_list s.sc_aliases) (field_of_str s.sc_scope) (int_of_n s.sc_min_args) (b2s (script_confined s)))
+        Printf.printf "SCRIPT\t%s\t%s\t%s\t%s\t%d\t%s\t%s\n" (field_of_str s.sc_path) (field_of_str s.sc_name)
+          (field_of_list s.sc_aliases) (field_of_str s.sc_scope) (int_of_n s.sc_min_args) (b2s (script_confined s))
+          (b2s (script_confined_s s)))
         gen_scripts;
       Printf.printf "PURE\t%s\n" (field_of_list pure_cmds);
       Printf.printf "FLOW\t%s\n" (field_of_list flow_cmds);
+      Printf.printf "COND\t%s\n" (field_of_list cond_cmds);
+      Printf.printf "TABLEOK\t%s\n" (b2s (table_ok_s gen_table));
       print_endline "END"
+  | ["WITNESS"] ->
+      (match wit_summary with
+       | Some (odd, still) -> Printf.printf "WITNESS\t%s\t%s\n" (b2s odd) (b2s still)
+       | None -> print_endline "WITNESS\tnone")
   | _ -> print_endline "BADLINE")
